@@ -2170,6 +2170,26 @@ def alloc_rules(run, rule, ast):
         run.instance(rule, "%s: every direct derived class continues numbering after this class's slots" % short(f), (f["file"], rec[0]["l"]), ok=bool(okd))
         if not okd:
             run.violation(rule, "compiler::assign_tree_slots|recursion", "derived classes do not (all) continue with the counter after this class's parameters: `%s`" % astq.text(rec[0]["c"][2])[:60], (f["file"], rec[0]["l"]))
+    # --- every class below a root is visited: the walk descends into ALL direct derived classes (a class without
+    #     parameters of its own is still the way to the classes below it)
+    for f in by_name(ast, "assign_lattice_slots") + by_name(ast, "assign_tree_slots"):
+        byid, parent = astq.index_nodes(f)
+        cls = f["params"][0]["did"]
+        fname = f["name"].rsplit("::", 1)[1]
+        rec = [n for n in astq.walk(f["body"]) if n.get("k") == "CXXMemberCallExpr" and re.search(r"::%s$" % fname, n.get("callee") or "")]
+        if len(rec) != 1:
+            run.broken.append("%s: expected one recursive call, found %d" % (short(f), len(rec)))
+            continue
+        lps = _enclosing(parent, rec[0], ("CXXForRangeStmt",))
+        okl = bool(lps) and _members(lps[0]["range"])[:1] == ["direct_derived"] and _refs(lps[0]["range"], cls) and _refs(rec[0]["c"][1], lps[0]["var"]["did"])
+        guards = [i for i in _enclosing(parent, rec[0], ("IfStmt",)) if lps and _in_subtree(lps[0]["body"], i)]
+        outer = [i for i in _enclosing(parent, rec[0], ("IfStmt",)) if i not in guards]
+        ok = okl and not guards and not outer
+        run.instance(rule, "%s: the walk descends into every direct derived class" % short(f), (f["file"], rec[0]["l"]), ok=ok)
+        if not ok:
+            g = (guards or outer or [None])[0]
+            run.violation(rule, "compiler::%s|descent" % fname, "the recursion into the derived classes %s: classes below a skipped class are never allocated and keep slot 0" % (
+                ("is skipped depending on `%s`" % astq.text(g["cond"])[:70]) if g else "does not range over cls.direct_derived"), (f["file"], rec[0]["l"]))
     # --- C. lattice: the slot taken is free in used AND reserved
     for f in by_name(ast, "assign_lattice_slots"):
         byid, parent = astq.index_nodes(f)
